@@ -151,7 +151,7 @@ func init() {
 	mc.Register(&mc.Check{
 		ID:    "C05",
 		Level: "exploration",
-		Rule:  "E1 exhaustive: (a) every sequence of <= L symbols over a 34-symbol alphabet (6 keywords as units, all 12 punctuation marks, quotes, backtick, space, TAB, CR, LF, newline+indent, a name, a digit, + = #, NUL, U+0085, an astral character); (b) for every program of a corpus of valid renderings: truncation at every offset, deletion and duplication of every rune, insertion of every alphabet symbol at every offset (and all pairs of deletions on a subset); (c) the same inputs through ExecVarInputText, each text submitted twice in one process (termination; the second submission is answered like the first); (d) long lines: 14 faulty tails behind 6 kinds of padding (a long text, a long name, a long sum, blanks, a long comment, a long list) of every width 0..160 (0..400 thorough) on the only line, on the last line and on a middle line. Oracle: terminates (watchdog), returns a tree xor a *SyntaxError with code != 0 and 0 <= position <= length, any returned tree passes the completeness walker, DisplayError succeeds and quotes a line of the source. Distinct by construction; non-trivial = not parsed successfully or longer than one symbol.",
+		Rule:  "E1 exhaustive: (a) every sequence of <= L symbols over a 34-symbol alphabet (6 keywords as units, all 12 punctuation marks, quotes, backtick, space, TAB, CR, LF, newline+indent, a name, a digit, + = #, NUL, U+0085, an astral character); (b) for every program of a corpus of valid renderings: truncation at every offset, deletion and duplication of every rune, insertion of every alphabet symbol at every offset (and all pairs of deletions on a subset); (c) the same inputs through ExecVarInputText, each text submitted twice in one process (termination; the second submission is answered like the first); (e) deep nesting: 6 opening constructs ({ 【 a call, 以-chain, unary minus, 1 + {) repeated 1 .. 2 000 000 times around one operand, closed and unclosed: a tree or a positioned syntax error, and the process survives; (d) long lines: 14 faulty tails behind 6 kinds of padding (a long text, a long name, a long sum, blanks, a long comment, a long list) of every width 0..160 (0..400 thorough) on the only line, on the last line and on a middle line. Oracle: terminates (watchdog), returns a tree xor a *SyntaxError with code != 0 and 0 <= position <= length, any returned tree passes the completeness walker, DisplayError succeeds and quotes a line of the source. Distinct by construction; non-trivial = not parsed successfully or longer than one symbol.",
 		Assumptions: []string{
 			"a recovered Go runtime error leaking out of Parser.Parse as the error value is counted as a violation (it is not a syntax error with a position)",
 			"hang = no result for 20 s on an input whose normal cost is microseconds; confirmed in a fresh process",
@@ -314,7 +314,57 @@ func c05Run(c *mc.Ctx) {
 		c.Eval(true)
 		c.Stat("long_line_cases", 1)
 	}
+	// (e) deep nesting: every opening bracket kind repeated N times around one operand (closed
+	// and unclosed), N up to two million: a tree or a syntax error, and the process survives
+	base += total
+	depths := []int{1, 10, 100, 1000, 9999, 10000, 10001, 100000, 2000000}
+	opens := []struct{ o, c string }{{"{", "}"}, {"【", "】"}, {"（显示：", "）"}, {"以", "（加：1）"}, {"-", ""}, {"1 + {", "}"}}
+	c.Describe = func(i int64) json.RawMessage {
+		k := i - base
+		d, o := depths[k%int64(len(depths))], opens[(k/int64(len(depths)))%int64(len(opens))]
+		return mc.J(map[string]any{"part": "deep-nesting", "open": o.o, "close": o.c, "depth": d, "closed": k/int64(len(depths)*len(opens)) == 0})
+	}
+	for k := int64(0); k < int64(len(depths)*len(opens)*2); k++ {
+		if !c.Mine(base + k) {
+			continue
+		}
+		c.CaseIdx(base + k)
+		d, o := depths[k%int64(len(depths))], opens[(k/int64(len(depths)))%int64(len(opens))]
+		closed := k/int64(len(depths)*len(opens)) == 0
+		report(c05Deep(o.o, o.c, d, closed))
+		c.Eval(true)
+		c.Stat("deep_nesting_cases", 1)
+	}
+	c.Bound("deep_nesting", fmt.Sprintf("complete: %d bracket kinds x depths %v x closed/unclosed", len(opens), depths))
 	c.Bound("long_lines", fmt.Sprintf("complete: %d faulty tails x %d paddings x 3 line positions x every padding width 0..%d", len(c05Tails), c05PadKinds, K))
+}
+
+// c05Deep: 输出 + open x depth + 1 + close x depth.
+func c05Deep(open, cls string, depth int, closed bool) (f *mc.Failure) {
+	src := "输出" + strings.Repeat(open, depth) + "1"
+	if closed {
+		src += strings.Repeat(cls, depth)
+	}
+	cs := mc.J(map[string]any{"part": "deep-nesting", "open": open, "close": cls, "depth": depth, "closed": closed})
+	defer func() {
+		if p := recover(); p != nil {
+			f = &mc.Failure{Kind: "panic", Bucket: "deep-nesting", Case: cs, Observed: fmt.Sprint(p)}
+		}
+	}()
+	p := syntax.NewParser([]rune(src), zh.NewParserZH())
+	tree, err := p.Parse()
+	if err == nil {
+		if tree == nil {
+			return &mc.Failure{Kind: "mismatch", Bucket: "deep-nesting", Case: cs, Expected: "tree or syntax error", Observed: "nil tree, nil error"}
+		}
+		return nil
+	}
+	se, ok := err.(*zerr.SyntaxError)
+	if !ok || se.Code == 0 || se.Cursor < 0 || se.Cursor > len([]rune(src)) {
+		return &mc.Failure{Kind: "mismatch", Bucket: "deep-nesting", Case: cs, Expected: "a *SyntaxError with a code and a position inside the text", Observed: fmt.Sprintf("%T %v", err, clipS(fmt.Sprint(err), 200))}
+	}
+	_ = exec.DisplayError(exec.WrapSyntaxError(p, exec.MODULE_NAME_MAIN, err))
+	return nil
 }
 
 // faulty fragments put at the end of a long line
@@ -362,6 +412,19 @@ func c05Replay(c *mc.Ctx, raw json.RawMessage) {
 	var cs c05Case
 	if err := json.Unmarshal(raw, &cs); err != nil {
 		c.Fail(mc.Failure{Kind: "crash", Observed: err.Error()})
+		return
+	}
+	if cs.Part == "deep-nesting" {
+		var dn struct {
+			Open, Close string
+			Depth       int
+			Closed      bool
+		}
+		if json.Unmarshal(raw, &dn) == nil {
+			if f := c05Deep(dn.Open, dn.Close, dn.Depth, dn.Closed); f != nil {
+				c.Fail(*f)
+			}
+		}
 		return
 	}
 	if cs.Part == "varinput" {
